@@ -40,11 +40,18 @@ TRUSTED = ["contracts of the samplers: np.random.randint(0,m,2) returns two indi
            "RNG recording by attribute patching from the harness (np.random.randint/rand, random.randint/choice)"]
 BUDGET_S = {"quick": 45, "thorough": 780}
 
-CALL_TIMEOUT = 10.0
+CALL_TIMEOUT = 6.0
 
 
 class _Timeout(BaseException):
     pass
+
+
+class _NeedMore(BaseException):
+    """scripted draw source: the script is exhausted; `nopts` outcomes are possible for the next draw"""
+
+    def __init__(self, nopts):
+        self.nopts = nopts
 
 
 def _alarm(signum, frame):
@@ -73,8 +80,16 @@ def guarded(fn, secs=CALL_TIMEOUT):
 class NumpyDraws:
     """records (and in mode 'adv' supplies) the draws of np.random.randint / np.random.rand"""
 
-    def __init__(self, mode, seed):
+    def __init__(self, mode, seed, script=None):
         self.mode, self.seed, self.log = mode, seed, []
+        self.script, self.pos = list(script or []), 0
+
+    def next_scripted(self, nopts):
+        if self.pos >= len(self.script):
+            raise _NeedMore(nopts)
+        c = self.script[self.pos] % nopts
+        self.pos += 1
+        return c
 
     def __enter__(self):
         import numpy as np
@@ -89,7 +104,10 @@ class NumpyDraws:
         log = self.log
 
         def randint(*a, **k):
-            if (self.mode == "adv" and not k and len(a) == 3 and a[0] == 0 and a[2] == 2
+            if (self.mode == "script" and not k and len(a) == 3 and a[0] == 0 and a[2] == 2
+                    and isinstance(a[1], int) and a[1] > 0):
+                res = np.array(divmod(self.next_scripted(a[1] * a[1]), a[1]))
+            elif (self.mode == "adv" and not k and len(a) == 3 and a[0] == 0 and a[2] == 2
                     and isinstance(a[1], int) and a[1] > 0):
                 m = a[1]
                 u = r.random()
@@ -107,7 +125,9 @@ class NumpyDraws:
             return res
 
         def rand(*a, **k):
-            if self.mode == "adv" and not a and not k:
+            if self.mode == "script" and not a and not k:
+                res = 0.25 if self.next_scripted(2) == 1 else 0.75
+            elif self.mode == "adv" and not a and not k:
                 res = 0.25 if r.random() < p_coin else 0.75
             else:
                 res = real_rand(*a, **k)
@@ -374,12 +394,15 @@ def check_undirected(ctx, drv, case):
         return
     rank = {x: i for i, x in enumerate(sorted(set(labels)))}
     size = params.get("size", params["order"] + 1 if "order" in params else None)
-    with NumpyDraws(mode, seed) as rec:
-        status, out = guarded(lambda: configuration_model(h, **params))
-    E_after = [tuple(e) for e in h.get_edges()]
+    try:
+        with NumpyDraws(mode, seed, case.get("script")) as rec:
+            status, out = guarded(lambda: configuration_model(h, **params))
+    except _NeedMore as more:
+        return more.nopts
     real = None
     if status == "ok":
         try:
+            E_after = [tuple(e) for e in h.get_edges()]
             E_out = [tuple(e) for e in out.get_edges()]
             real = sorted(tuple(rank[x] for x in e) for e in E_out)
         except Exception as e:  # noqa: BLE001
@@ -400,10 +423,13 @@ def check_undirected(ctx, drv, case):
         if any(len(a) != len(b) for a in E_in for b in E_in) and not params["detailed"] and nontrivial:
             ctx.count("undirected_mixed_size_reshuffles")
     elif status == "timeout":
+        ctx.count("timeouts")
         ctx.disagree(case, f"configuration_model did not return within {CALL_TIMEOUT:.0f} s "
                            f"({len(rec.log)} draws consumed); the model returns with probability one")
     m_sel = len([e for e in E_in if size is None or len(e) == size])
     key = repr((sorted(real) if real is not None else status, sorted(map(repr, E_in)), sorted(params.items()), mode, seed))
+    if mode == "script":
+        key = repr((key, case.get("script")))
     ctx.case(key, nontrivial, sample={k: case[k] for k in ("edges", "params", "mode", "seed")})
     # ---- correspondence with the Lean model
     if drv is None or status == "timeout":
@@ -428,6 +454,17 @@ def check_undirected(ctx, drv, case):
     if model != real:
         ctx.disagree(case, f"returned hyperedges differ: implementation {real}, model {model}")
         return
+    # the model's observables (degK, deg of Model/C13.lean) are the property's degrees
+    if real and ctx.rng.random() < 0.25:
+        x = ctx.rng.choice(sorted({v for e in real for v in e}))
+        k = ctx.rng.choice(sorted({len(e) for e in real}))
+        enc = hgxv.enc_lists(real)
+        a1, a2 = drv.batch([f"degk {enc} {x} {k}", f"deg {enc} {x}"])
+        w1 = sum(1 for e in set(real) if x in e and len(e) == k)
+        w2 = sum(1 for e in set(real) if x in e)
+        if a1 != str(w1) or a2 != str(w2):
+            ctx.disagree(case, f"model observables degK/deg = {a1}/{a2}, definition gives {w1}/{w2} (node rank {x}, size {k})")
+        ctx.count("observable_probes")
     # the model must consume exactly the recorded draws: one draw less must not suffice when it needs them all
     if draws and ctx.rng.random() < 0.1:
         ans2 = drv.ask(line.rsplit(" ", 1)[0] + " " + hgxv.enc_lists(draws[:-1]))
@@ -458,10 +495,10 @@ def check_directed(ctx, drv, case):
     rank = {x: i for i, x in enumerate(sorted(set(labels)))}
     with PyDraws(mode, seed) as rec:
         status, out = guarded(lambda: directed_configuration_model(h))
-    E_after = [(tuple(s), tuple(t)) for s, t in h.get_edges()]
     real = None
     if status == "ok":
         try:
+            E_after = [(tuple(s), tuple(t)) for s, t in h.get_edges()]
             E_out = [(tuple(s), tuple(t)) for s, t in out.get_edges()]
             real = sorted((tuple(rank[x] for x in s), tuple(rank[x] for x in t)) for s, t in E_out)
         except Exception as e:  # noqa: BLE001
@@ -479,6 +516,7 @@ def check_directed(ctx, drv, case):
         if len(E_out) < len(E_in):
             ctx.count("directed_merged_hyperedges")
     elif status == "timeout":
+        ctx.count("timeouts")
         ctx.disagree(case, f"directed_configuration_model did not return within {CALL_TIMEOUT:.0f} s; it has no unbounded loop")
     key = repr((real if real is not None else status, sorted(map(repr, E_in)), mode, seed))
     ctx.case(key, nontrivial, sample={k: case[k] for k in ("edges", "mode", "seed")})
@@ -506,19 +544,60 @@ def check_directed(ctx, drv, case):
 
 # ------------------------------------------------------------------------------------------
 
+def explore_undirected(ctx, drv, base, max_nodes, max_depth):
+    """walk the tree of ALL draw outcomes of the real code for one small input: the scripted source
+    aborts the run at the first draw beyond the script and reports how many outcomes that draw has"""
+    stack, nodes = [[]], 0
+    while stack and nodes < max_nodes and not out_of_time(ctx):
+        script = stack.pop()
+        nodes += 1
+        need = check_undirected(ctx, drv, {**base, "mode": "script", "script": script, "seed": 0})
+        if need is None:
+            ctx.count("exhaustive_leaves")
+        elif len(script) >= max_depth:
+            ctx.count("exhaustive_cut_at_depth")
+        else:
+            stack.extend(script + [c] for c in range(need))
+    if stack:
+        ctx.count("exhaustive_trees_truncated")
+    else:
+        ctx.count("exhaustive_trees_complete")
+
+
+def gen_small(rng):
+    n = rng.randint(3, 5)
+    labels = gen_labels(rng, n)
+    m = rng.choice([2, 2, 3])
+    edges, seen = [], set()
+    while len(edges) < m:
+        e = tuple(sorted(rng.sample(labels, rng.choice([1, 2, 2, 3]))))
+        if e not in seen:
+            seen.add(e)
+            edges.append(e)
+    params = gen_params(rng, edges)
+    params["n_steps"] = 1 if m == 3 else rng.choice([1, 2])
+    return labels, edges, params
+
+
 def out_of_time(ctx):
-    return ctx.too_many() or (ctx.time_left() is not None and ctx.time_left() < 8)
+    # keep searching for a failing input of the property after the correspondence broke
+    return len(ctx.violations) >= 3 or len(ctx.disagreements) >= 60 or ctx.extra.get("timeouts", 0) >= 2 or (ctx.time_left() is not None and ctx.time_left() < 8)
 
 
 def run(ctx):
     hgxv.use_repo()
     drv = ctx.driver() if ctx.model_available else None
     rng = ctx.rng
-    n_inputs = ctx.scale(220, 6000)
+    n_inputs = ctx.scale(2000, 40000)
     per_input = ctx.scale(3, 6)
+    n_trees = ctx.scale(10, 300)
     for it in range(n_inputs):
         if out_of_time(ctx):
             break
+        if it % max(1, n_inputs // n_trees) == 0:
+            labels, edges, params = gen_small(rng)
+            explore_undirected(ctx, drv, {"kind": "cm", "labels": labels, "edges": edges, "weights": None,
+                                          "isolated": [], "params": params}, ctx.scale(1500, 6000), 9)
         if it % 4 != 3:
             labels, edges, weights, iso = gen_undirected(rng)
             params = gen_params(rng, edges)
